@@ -72,6 +72,7 @@ package compile
 //@   loop 0 invariant c.filter == old(c.filter) && forall(k, 0, len(children), old(c.filter) == nil || apply_filter(old(c.filter), children[k]))
 //@   loop 1 invariant c.filter == old(c.filter) && forall(k, 0, len(children), old(c.filter) == nil || apply_filter(old(c.filter), children[k]))
 //@   loop 2 invariant c.filter == old(c.filter) && forall(k, 0, len(children), old(c.filter) == nil || apply_filter(old(c.filter), children[k]))
+//@   loop 3 invariant c.filter == old(c.filter) && forall(k, 0, len(children), old(c.filter) == nil || apply_filter(old(c.filter), children[k]))
 
 // ---------------------------------------------------------------------------
 // Inherited properties (C14). RFC 6020 7.19.1: config defaults to the parent's value and config true
